@@ -427,48 +427,57 @@ def splitNew : List RS → Option RS × List RS
     let (n, l) := splitNew rs
     if r.idx == -1 then (some r, l) else (n, r :: l)
 
+/-- the two loops of `scale` distributing `toAdd` over the active RSs `allRSs`
+    (`cOlds`/`cWrites`: old RSs and writes after the optional clean-up) -/
+def distribute (s : State) (nw : Option RS) (cOlds : List RS) (cWrites : List Write) (toAdd : Int)
+    (allRSs : List RS) : ScaleRes :=
+  let sorted :=
+    if toAdd > 0 then sortBy bySizeNewer allRSs
+    else if toAdd < 0 then sortBy bySizeOlder allRSs
+    else allRSs
+  match proportionLoop s toAdd sorted 0 with
+  | none => ⟨nw, cOlds, cWrites, false, true⟩
+  | some (plan, added) =>
+    -- add/remove any leftovers to the largest replica set
+    let plan := match plan with
+      | [] => []
+      | (r, n) :: rest =>
+        if toAdd != 0 then (r, if n + (toAdd - added) < 0 then 0 else n + (toAdd - added)) :: rest
+        else (r, n) :: rest
+    let up := updateLoop s plan
+    let sp := splitNew up.1
+    ⟨match sp.1 with
+      | some x => some x
+      | none => nw,
+     sp.2 ++ inactive cOlds, cWrites ++ up.2, false, false⟩
+
+/-- proportional part of `scale` (several active RSs, new RS not saturated) -/
+def scaleProportional (s : State) (nw : Option RS) (olds : List RS) : ScaleRes :=
+  let allRSs := active (sortBy byCreationDesc olds ++ nw.toList)
+  let allRSsReplicas := sumSpec allRSs
+  let allowedSize := if s.replicas > 0 then s.replicas else 0
+  let toAdd := allowedSize - allRSsReplicas
+  if toAdd < 0 then
+    -- scale down the unhealthy replicas in old replica sets first
+    let c := cleanup s olds (-toAdd)
+    if c.err then ⟨nw, c.olds, c.writes, true, false⟩
+    else distribute s nw c.olds c.writes (toAdd + c.count) (active (c.olds ++ nw.toList))
+  else distribute s nw olds [] toAdd allRSs
+
 /-- `scale` -/
 def scale (s : State) (nw : Option RS) (olds : List RS) : ScaleRes :=
   match findActiveOrLatest nw olds with
   | some r =>
     if r.spec == s.replicas then ⟨nw, olds, [], false, false⟩
     else
-      let (r', w) := scaleAndRecord s r s.replicas
-      if r'.idx == -1 then ⟨some r', olds, w, false, false⟩ else ⟨nw, replaceIdx r' olds, w, false, false⟩
+      let sc := scaleAndRecord s r s.replicas
+      if sc.1.idx == -1 then ⟨some sc.1, olds, sc.2, false, false⟩
+      else ⟨nw, replaceIdx sc.1 olds, sc.2, false, false⟩
   | none =>
     if isSaturated s nw then
-      let (l, w) := scaleAllTo s 0 (active (sortBy byCreationDesc olds))
-      ⟨nw, l ++ inactive olds, w, false, false⟩
-    else
-      let allRSs := active (sortBy byCreationDesc olds ++ nw.toList)
-      let allRSsReplicas := sumSpec allRSs
-      let allowedSize := if s.replicas > 0 then s.replicas else 0
-      let toAdd := allowedSize - allRSsReplicas
-      -- clean up unhealthy old replicas first when scaling down
-      let c : LoopRes := if toAdd < 0 then cleanup s olds (-toAdd) else ⟨olds, 0, [], false⟩
-      if c.err then ⟨nw, c.olds, c.writes, true, false⟩ else
-      let toAdd := if toAdd < 0 then toAdd + c.count else toAdd
-      let allRSs := if allowedSize - allRSsReplicas < 0 then active (c.olds ++ nw.toList) else allRSs
-      let sorted :=
-        if toAdd > 0 then sortBy bySizeNewer allRSs
-        else if toAdd < 0 then sortBy bySizeOlder allRSs
-        else allRSs
-      match proportionLoop s toAdd sorted 0 with
-      | none => ⟨nw, c.olds, c.writes, false, true⟩
-      | some (plan, added) =>
-        let plan := match plan with
-          | [] => []
-          | (r, n) :: rest =>
-            if toAdd != 0 then
-              let n := n + (toAdd - added)
-              (r, if n < 0 then 0 else n) :: rest
-            else (r, n) :: rest
-        let (l, w) := updateLoop s plan
-        let (n', o') := splitNew l
-        ⟨match n' with
-          | some x => some x
-          | none => nw,
-         o' ++ inactive c.olds, c.writes ++ w, false, false⟩
+      let sc := scaleAllTo s 0 (active (sortBy byCreationDesc olds))
+      ⟨nw, sc.1 ++ inactive olds, sc.2, false, false⟩
+    else scaleProportional s nw olds
 
 /-! ### dispatch -/
 
